@@ -7,6 +7,34 @@ import os
 ROOT = os.path.dirname(os.path.dirname(os.path.abspath(__file__)))
 
 CHECKS = {
+    "C17": dict(
+        category="exploration",
+        technique="round trip AST -> text (3 random layouts) -> real parser -> normalised tree dump, over Hypothesis-generated structural and typed ASTs; metamorphic layout/outer-comment invariance of run results",
+        text="(1) Structural ASTs over all component kinds and every function name the factory resolves (count reported in evidence), arity 0-4, well-known and arbitrary qualifiers, quoted headers, signed/decimal numbers, regex terms, references, nesting <=4, parsed with LarkParser + LarkTransformer (no arity validation in the way): no _ambig node and the dump equals the source AST for every layout. (2) Runnable typed programs through CsvPath.parse (Matcher.expressions dump) and a run per layout: identical results, also with a mode-free outer comment added.",
+        note="Trusted: the renderer and the dump normaliser in vf/props/c17.py. Whitespace is always kept before '->' ('-' is a legal name character); quoted headers carry no qualifiers (no grammar form).",
+        design="5 C17",
+    ),
+    "C18": dict(
+        category="fault_enumeration",
+        technique="fault enumeration over (member, line) abort points in Hypothesis-generated groups, all six run methods, followed by a further run on the same instance; invariants over the archive",
+        text="Groups of 1-4 generated csvpaths over tables of <=8 data lines; the abort is induced at (member i, line k) by an argument error or a Python exception raised through validation-mode: raise on that member or a policy with raise. Quick draws one point per group; thorough enumerates every point of every generated group. Checked: the exception reaches the caller; every started member has readable meta/vars/errors; the aborting member's errors.json names line k and its manifest says completed false; members finished earlier equal their standalone runs; the run manifest is not 'complete'; inputs/ unchanged; a further run on the same instance raises nothing, gets its own directory with status complete and leaves the aborted run's manifest not complete.",
+        note="Aborts are induced through csvpath programs and policies only (no process kill between two writes).",
+        design="5 C18",
+    ),
+    "C19": dict(
+        category="exploration",
+        technique="twin-run differential: every job of a Hypothesis-generated history vs the same job alone in a fresh Python process with an empty cache",
+        text="Histories of 2-6 (csvpath, file) jobs in one long-lived process, created by CsvPath() or CsvPaths().csvpath(), over files whose header cells may contain quotes, delimiters, leading quotes and spaces, optionally a file path rewritten with new content, cache cold or populated by an earlier process. Each job's (lines, variables, printouts, errors, validity, counters, headers) must equal its fresh-process twin; a repeated job repeats its tuple.",
+        note="Twins are subprocesses (python -m vf.props.c19) with their own scratch directory and the same relative file path.",
+        design="5 C19",
+    ),
+    "C20": dict(
+        category="exploration",
+        technique="composition oracle: chains vs standalone stage-by-stage runs over harness-written files; reference values vs standalone results of the most recent run; replay vs the referenced data.csv",
+        text="(a) Chains of 2-4 generated filters with source-mode: preceding on a drawn suffix (collect_paths): each stage must return what a standalone CsvPath returns over a file written from the previous stage's expected lines, and its manifest must name the predecessor's data.csv with source_mode_preceding true. (b) A group of variable-writing members run 1-3 times on one instance over different files, then a reader assigning $g.variables.v, $g.variables.v.key and $g.headers.name[.id]: values equal the standalone results of the most recent run. (c) '$g.results.<prefix>:last.<id>' as a file name replays exactly the member's data.csv.",
+        note="Chains whose intermediate stage returns nothing are discarded (counted).",
+        design="5 C20",
+    ),
     "C09": dict(
         category="exploration",
         technique="consistency checking between memory, archived files, member manifests and run manifest, with the standalone run as independent source, over Hypothesis-generated groups and all six run methods",
